@@ -5,7 +5,6 @@
      InstrFormat::write_instr / read_instr / write_terminal_instr / instr_size
      llir::write_instrs / llir::read_instrs                     (src/llir/mod.rs)
      BinWrite::write_{i8..u32} / BinRead::read_{i8..u32}        (src/io.rs, little endian)
-     write_msg / read_msg                                        (src/formats/msg.rs)
    Definitions only; the lemmas are in Proofs/Container*.v. *)
 From TV Require Import Base.I32.
 Open Scope Z_scope.
@@ -55,7 +54,6 @@ Definition E_RANGE : nat := 31.    (* a checked header field is out of range (di
 Definition E_BADSIZE : nat := 32.  (* "bad instruction size" *)
 Definition E_PASTEND : nat := 33.  (* "script read past expected end" *)
 Definition E_TERMLIKE : nat := 34. (* a writer refused an instruction that reads as the end marker *)
-Definition E_NOSCRIPT : nat := 35. (* "no such script" *)
 
 (* ------------------------------------------------------------------------------------------ *)
 (* llir::RawInstr *)
@@ -454,36 +452,3 @@ Definition candidates (f : fmt) : list instr :=
 
 (* the format either cannot change a value silently, or one of the candidates shows that it does *)
 Definition status (f : fmt) : bool := fmt_ok f && (all_checked f || existsb (refutes f) (candidates f)).
-
-(* ------------------------------------------------------------------------------------------ *)
-(* MSG whole-file layout: write_msg / read_msg (src/formats/msg.rs).
-   A file is a table of entries (script index or None for offset 0, flags) and a list of scripts;
-   script k is written after script k-1; entry offsets are back-patched. *)
-Record msgfile := mkMsg { m_table : list (option nat * Z); m_scripts : list (list instr) }.
-
-Fixpoint write_scripts (f : fmt) (pos : Z) (ss : list (list instr)) : outcome (list Z * list Z) :=
-  match ss with
-  | [] => Ok ([], [])
-  | s :: t => do a <- write_instrs f s;
-              do r <- write_scripts f (pos + Z.of_nat (length a)) t;
-              Ok (a ++ fst r, pos :: snd r)
-  end.
-
-Definition msg_entry_size (flags : bool) : Z := if flags then 8 else 4.
-
-Definition write_msg (f : fmt) (flags : bool) (m : msgfile) : outcome (list Z) :=
-  let n := Z.of_nat (length (m_table m)) in
-  let body0 := 4 + n * msg_entry_size flags in
-  do r <- write_scripts f body0 (m_scripts m);
-  do tbl <- (fix go (es : list (option nat * Z)) : outcome (list Z) :=
-               match es with
-               | [] => Ok []
-               | (s, fl) :: t =>
-                   do off <- match s with
-                             | None => Ok 0
-                             | Some k => match nth_error (snd r) k with Some o => Ok o | None => Err E_NOSCRIPT end
-                             end;
-                   do rest <- go t;
-                   Ok (le_encode 4 off ++ (if flags then le_encode 4 fl else []) ++ rest)
-               end) (m_table m);
-  Ok (le_encode 4 n ++ tbl ++ fst r).
